@@ -651,7 +651,7 @@ def prepare(ctx: Ctx):
     small = [(rel, t) for rel, t in info.configs if len(repr(t)) < 9000]
     with_inf = [x for x in small if x[1].get("inference")]
     without = [x for x in small if not x[1].get("inference")]
-    bases = rng.sample(with_inf, min(len(with_inf), ctx.budget(3, 14))) + rng.sample(without, min(len(without), ctx.budget(2, 10)))
+    bases = rng.sample(with_inf, min(len(with_inf), ctx.budget(3, 8))) + rng.sample(without, min(len(without), ctx.budget(2, 6)))
     muts = []
     per_base = ctx.budget(16, 200)
     for rel, tree in bases:
@@ -722,6 +722,8 @@ def correspondence(ctx: Ctx):
         yield {"line": line("cfgmut", [idx[rel]], enc_path(path, info), val), "impl": (lambda r=r: r["answer"]),
                "key": ("mut", rel, bucket), "nontrivial": True, "bucket": "mut/" + bucket + " -> " + r["answer"].replace(" ", "-")}
     # (3) validate vs OmegaConf.merge on single schemas
+    import dataclasses
+
     from omegaconf import OmegaConf
 
     schema_list = sorted(info.schema_classes.items())
@@ -729,8 +731,6 @@ def correspondence(ctx: Ctx):
     for _ in range(ctx.budget(500, 6000)):
         si = rng.randrange(len(schema_list))
         (mod, name), cls = schema_list[si]
-        import dataclasses
-
         fields = dataclasses.fields(cls)
         if not fields:
             continue
@@ -755,6 +755,33 @@ def correspondence(ctx: Ctx):
 
         yield {"line": line("validate", [si], enc_val(tree, info)), "impl": impl, "key": ("validate", si, repr(tree)),
                "nontrivial": True, "bucket": f"validate/{shape}"}
+    # (3b) systematic: container-typed / optional fields of every schema against the shapes that decide the error class
+    import typing
+
+    def merge_impl(cls, tree):
+        def impl():
+            try:
+                OmegaConf.merge(OmegaConf.structured(cls), OmegaConf.create(tree))
+                return "ok"
+            except Exception as e:  # noqa: BLE001
+                return "err " + type(e).__name__
+        return impl
+
+    for si, ((mod, name), cls) in enumerate(schema_list):
+        try:
+            hints = typing.get_type_hints(cls)
+        except Exception:  # noqa: BLE001
+            continue
+        for f in dataclasses.fields(cls):
+            h = hints.get(f.name)
+            prim = h in (int, float, bool, str)
+            if prim and not ctx.thorough:
+                continue
+            for v in ([1], [], {}, None, "x", 3, True, 2.5, {"bogus_key_zz": 1}, [[1], {"x": 1}, None]):
+                tree = {f.name: v}
+                yield {"line": line("validate", [si], enc_val(tree, info)), "impl": merge_impl(cls, tree),
+                       "key": ("validate", si, repr(tree)), "nontrivial": True,
+                       "bucket": "validate/systematic-" + ("prim" if prim else "container-or-optional")}
     # (4) name resolution: every name that occurs + malformed ones
     import direct.environment as E
     from direct.utils import str_to_class
@@ -890,7 +917,18 @@ def replay(rep: dict) -> bool:
         if op == "import":
             import importlib
 
-            importlib.import_module(rep["what"].split()[-1])
+            import boot  # noqa: F401
+
+            for what in rep.get("all") or [rep["what"]]:
+                if what.startswith("import "):
+                    importlib.import_module(what.split()[-1])
+            return False
+        if op == "source":
+            from translate.recipes.c20 import introspect
+
+            return rep["where"] in introspect(force=True).instance_defaults
+        if op == "parse":
+            load_yaml(REPO / rep["path"])
             return False
     except BaseException:  # noqa: BLE001
         return True
